@@ -190,21 +190,25 @@ func (t *timeline) snapshot() []obs {
 
 // phaseInfo: what the nemesis did in one fault phase and what the cluster looked like.
 type phaseInfo struct {
-	Phase            int      `json:"phase"`
-	Fault            fault    `json:"fault"`
-	Victim           int      `json:"victim_store"` // 1-based for readability
-	VictimRaftLeader bool     `json:"victim_was_raft_leader"`
-	VictimMaster     bool     `json:"victim_owned_master_pt"`
-	LeaderBefore     int      `json:"raft_leader_before"`
-	MasterBefore     int      `json:"master_before"`
-	FaultTick        [2]int64 `json:"fault_tick"` // logical time just before / after the signal was sent
-	FlushPoint       string   `json:"flush_point,omitempty"`
-	EventOfVictim    string   `json:"event_recorded_for_victim"`
-	MasterOneDown    int      `json:"master_after_quiesce_one_down"`
-	LeaderOneDown    int      `json:"raft_leader_after_quiesce_one_down"`
-	HealTick         int64    `json:"heal_tick"`
-	MasterHealed     int      `json:"master_after_heal"`
-	LeaderHealed     int      `json:"raft_leader_after_heal"`
+	Phase            int        `json:"phase"`
+	Fault            fault      `json:"fault"`
+	Victim           int        `json:"victim_store"` // 1-based for readability
+	VictimRaftLeader bool       `json:"victim_was_raft_leader"`
+	VictimMaster     bool       `json:"victim_owned_master_pt"`
+	LeaderBefore     int        `json:"raft_leader_before"`
+	MasterBefore     int        `json:"master_before"`
+	FaultTick        [2]int64   `json:"fault_tick"` // logical time just before / after the signal was sent
+	FlushPoint       string     `json:"flush_point,omitempty"`
+	Raft             *raftFault `json:"raft_point_fault,omitempty"`
+	// slots of a stale raft log tail that the rejoined store zeroed when the new leader's first
+	// append arrived (read from its log file; -1 = nothing cut / not looked at)
+	StaleSlotsCut int    `json:"stale_raft_log_slots_cut_after_restart"`
+	EventOfVictim string `json:"event_recorded_for_victim"`
+	MasterOneDown int    `json:"master_after_quiesce_one_down"`
+	LeaderOneDown int    `json:"raft_leader_after_quiesce_one_down"`
+	HealTick      int64  `json:"heal_tick"`
+	MasterHealed  int    `json:"master_after_heal"`
+	LeaderHealed  int    `json:"raft_leader_after_heal"`
 	// History of every store when this phase started: "" (untouched), else a list of
 	// kill / kill-during-flush / pause events it went through (and was healed from).
 	StoreHistory [3][]string `json:"store_history_before"`
